@@ -49,5 +49,31 @@ def quotesVerification (self : Peer) (selfKey : Key) (now : Nat) (quotes : List 
         aroundSameTime e.quote.ts me.quote.ts && checkSigned S I e.quote e.claimed)
     else none
 
+/-- what the swarm driver answers to `GetLocalQuotingMetrics` -/
+inductive MetricsAnswer where
+  | metrics (m : Metrics) (alreadyStored : Bool)
+  | dropped
+  deriving Repr
+
+/-- the `quote` field of the `QueryResponse::GetStoreQuote` a node returns (`peer_address` is always its own) -/
+inductive QuoteReply where
+  | quote (q : Quote)
+  | recordExists
+  | failed
+  deriving Repr
+
+/-- `XorName::default()` -/
+def zeroName : List Nat := List.replicate 32 0
+
+/-- the `Query::GetStoreQuote` arm of `Node::handle_query` (nonce `None`): `name` is `key.as_xorname()` — `some` for
+chunk, register, scratchpad and transaction addresses, `none` for a peer id or a raw record key, in which case
+`create_quote_for_storecost` falls back to `unwrap_or_default()`, the all-zero name -/
+def getStoreQuote (selfKey : Key) (keyBytes : List Nat) (name : Option (List Nat)) (ans : MetricsAnswer)
+    (secs nanos : Nat) (rewards : List Nat) : QuoteReply :=
+  match ans with
+  | .dropped => .failed
+  | .metrics _ true => .recordExists
+  | .metrics m false => .quote (createQuote S selfKey keyBytes (name.getD zeroName) secs nanos m rewards)
+
 end
 end SafeNet.QuoteDuty
